@@ -54,31 +54,76 @@ Theorem C07_removal_scheduled : forall s0 h, Inv s0 ->
 Proof. exact removal_scheduled. Qed.
 Print Assumptions C07_removal_scheduled.
 
-(* slashable: replacing a validating key while epoch e is current with unbonding n schedules its pruning for e+n ... *)
+(* slashable: replacing a key (validating now or not — it may have validated until the last epoch end) while epoch e is
+   current with unbonding n schedules its pruning for e+n ... *)
 Theorem C07_replaced_key_scheduled : forall s o c k, Inv s ->
-  opted s o = true -> k_op s o = Some c -> vs s c = true -> k_prev s o = None -> k_rev s k = None ->
+  active s o = true -> k_op s o = Some c -> k_prev s o = None -> k_rev s k = None ->
   let s' := fst (step s (SetKey o k)) in
   snd (step s (SetKey o k)) = ROk /\ In (cur s + unb s, c) (q_prune s') /\ k_rev s' c = Some o /\
   k_op s' o = Some k /\ k_rev s' k = Some o /\ k_prev s' o = Some c.
 Proof. exact replaced_key_scheduled. Qed.
 Print Assumptions C07_replaced_key_scheduled.
 
-(* ... opting out with a validating key schedules the completion for e+n and deletes nothing ... *)
+(* ... opting out with a key schedules the completion for e+n and deletes nothing ... *)
 Theorem C07_optout_scheduled : forall s o c, Inv s ->
-  opted s o = true -> k_op s o = Some c -> vs s c = true ->
+  active s o = true -> k_op s o = Some c ->
   let s' := fst (step s (OptOut o)) in
   snd (step s (OptOut o)) = ROk /\ In (cur s + unb s, o) (q_opt s') /\ fin s' o = Some (cur s + unb s) /\
   k_rm s' o = true /\ k_rev s' = k_rev s /\ k_op s' = k_op s.
 Proof. exact optout_scheduled. Qed.
 Print Assumptions C07_optout_scheduled.
 
-(* ... on every continuation the scheduled address keeps resolving to the SAME operator until epoch f is closed ... *)
+(* ... on every continuation during which epoch f is not closed ([all_states]: the dogfood epoch clock may be exchanged
+   by a parameter change, so "cur <= f" is required of every state passed) the scheduled address keeps resolving to
+   the SAME operator ... *)
 Theorem C07_slashable_until_matured : forall l s c o f, Inv s ->
   In (f, c) (q_prune s) -> k_rev s c = Some o ->
-  let s' := hrun s l in
-  cur s' <= f -> k_rev s' c = Some o /\ In (f, c) (q_prune s').
+  all_states (fun t => cur t <= f) s l ->
+  let s' := hrun s l in k_rev s' c = Some o /\ In (f, c) (q_prune s').
 Proof. exact slashable_until_matured. Qed.
 Print Assumptions C07_slashable_until_matured.
+
+(* ... and so does the key of an operator that is opting out, whose key indexes are untouched until the completion ... *)
+Theorem C07_optout_resolvable_until_matured : forall l s o c f, Inv s ->
+  In (f, o) (q_opt s) -> k_op s o = Some c ->
+  all_states (fun t => cur t <= f) s l ->
+  let s' := hrun s l in k_op s' o = Some c /\ k_rev s' c = Some o /\ In (f, o) (q_opt s').
+Proof. exact optout_resolvable_until_matured. Qed.
+Print Assumptions C07_optout_resolvable_until_matured.
+
+(* ... lifted to the entry points of the slashing / evidence modules: while the registry resolves the address, slashing
+   by consensus address reaches exactly that operator and Jail / Unjail set exactly its flag and nothing else;
+   once it does not, all three do nothing *)
+Theorem C07_slash_jail_by_address : forall s c o (v : bool), k_rev s c = Some o ->
+  slash_target s c = Some o /\
+  (let s' := fst (step s (if v then Jail c else Unjail c)) in
+   jailed s' o = (if info s o then v else jailed s o) /\ (forall o', o' <> o -> jailed s' o' = jailed s o') /\
+   k_rev s' = k_rev s /\ k_op s' = k_op s /\ k_ch s' = k_ch s /\ k_prev s' = k_prev s /\ k_rm s' = k_rm s /\
+   opted s' = opted s /\ vs s' = vs s /\ q_opt s' = q_opt s /\ q_prune s' = q_prune s /\ q_und s' = q_und s /\
+   holds s' = holds s).
+Proof. exact jail_by_address. Qed.
+Print Assumptions C07_slash_jail_by_address.
+
+Theorem C07_slash_jail_unresolved : forall s c, k_rev s c = None ->
+  slash_target s c = None /\ step s (Jail c) = (s, ROk) /\ step s (Unjail c) = (s, ROk) /\ jail_probe s c = false.
+Proof. exact jail_unresolved. Qed.
+Print Assumptions C07_slash_jail_unresolved.
+
+(* jailing and the selection input: whatever [sel] is, the set stored when an epoch closes contains only current keys of
+   operators that are opted in and NOT jailed, each resolving to that operator; and a jailed operator cannot opt out or
+   replace its key through the message, so it stays resolvable *)
+Theorem C07_jailed_not_selected : forall s sel, Inv s -> ep_end s = true ->
+  let s' := fst (step s (EndBlock sel)) in
+  forall c, vs s' c = true ->
+    exists o, In o sel /\ opted s' o = true /\ jailed s' o = false /\ k_op s' o = Some c /\ k_rev s' c = Some o /\
+              jailed s' = jailed s.
+Proof. exact jailed_not_selected. Qed.
+Print Assumptions C07_jailed_not_selected.
+
+Theorem C07_jailed_cannot_leave : forall s o k, jailed s o = true ->
+  step s (OptOut o) = (s, RErr) /\ step s (SetKey o k) = (s, RErr).
+Proof. exact jailed_cannot_leave. Qed.
+Print Assumptions C07_jailed_cannot_leave.
 
 (* ... and is pruned by the EndBlock of the block that closed it (C16_tick_moves_due puts it on the pending list) *)
 Theorem C07_pruned_then : forall s sel c, Inv s -> ep_end s = true -> In c (p_prune s) ->
@@ -94,17 +139,12 @@ Theorem C07_monitor_state_sound : forall U s0 h, Inv s0 ->
 Proof. intros U s0 h I. apply monitor_state_sound. apply inv_hrun. exact I. Qed.
 Print Assumptions C07_monitor_state_sound.
 
-(* a key that left the validator set earlier (operator deselected) is NOT kept on replacement: the statement
-   "has EVER been active => resolvable for the unbonding epochs after replacement" is false of the model (and of the
-   code: AfterOperatorKeyReplaced only looks at the CURRENT validator set) *)
-Theorem C07_ever_active_refuted : exists s0 h c,
-  Inv s0 /\ vs s0 c = true /\ k_rev s0 c = Some 1 /\
-  (let s := hrun s0 h in cur s = cur s0 + 1 /\ unb s = 2 /\ k_rev s c = None).
-Proof.
-  exists ex_state, [NextBlock [0; 1] true; NextBlock [0] false; Tx (SetKey 1 12)], 11.
-  split; [exact ex_state_inv|]. vm_compute. repeat split; reflexivity.
-Qed.
-Print Assumptions C07_ever_active_refuted.
+(* (was C07_ever_active_refuted before repo_patches/fix-dogfood-keep-replaced-keys-for-unbonding.patch) a key that left the
+   validator set at the last epoch end because its operator was deselected is kept on replacement like any other *)
+Example C07_deselected_key_kept :
+  let s := hrun ex_state [NextBlock [0; 1] true; NextBlock [0] false; Tx (SetKey 1 12)] in
+  (vs ex_state 11, vs s 11, cur s, k_rev s 11, q_prune s) = (true, false, 6, Some 1, [(8, 11)]).
+Proof. vm_compute. reflexivity. Qed.
 
 (* ---- non-vacuity ---- *)
 Example C07_inv_satisfiable : Inv ex_state.
